@@ -545,8 +545,12 @@ def run_sim(rep, rng, drv, tier, simulation):
                 bad("y_min <= yss <= y_max fails by more than 1e-9 and the reported optimum is not even a local optimum of func "
                     "(nearby points beat it by more than 1e-6): it is not what the optimiser located",
                     observed=dict(obs, nearby_points_below_y_min_by=beat_min, nearby_points_above_y_max_by=beat_max))
+            elif max(lo_gap, hi_gap) <= 1e-7:
+                # right basin, value off by a few 1e-9: the polish of differential_evolution stops at a relative decrease of
+                # 2.2e-9 of max(1, |f|), which is the same size as the property's 1e-9 (seen on objectives of tiny magnitude)
+                rep.skip("sim_range_optimiser_imprecise_(excess_below_1e-7)")
             else:
-                rep.skip("sim_range_optimiser_returned_a_local_or_imprecise_optimum")
+                rep.skip("sim_range_optimiser_returned_a_local_optimum")
         # ---- identical results for generators in identical states; the supplied generator is the one that is used
         diff = [k for k in ARRAY_FIELDS if not np.array_equal(getattr(r1, k), getattr(r2, k))]
         if diff or float(r1.y_min) != float(r2.y_min) or float(r1.y_max) != float(r2.y_max):
